@@ -102,6 +102,7 @@ CLAIMED = {
              "is per-program translation validation, not a theorem about compiler.py.",
         design_ref="§5 C18",
     ),
+<<<<<<< HEAD
     "C21": dict(
         category="proof",
         technique="Lean 4 proof by complete finite enumeration (decide +kernel) that the special-method table read from "
@@ -135,6 +136,8 @@ CLAIMED = {
              "native code generator is covered end-to-end only.",
         design_ref="§5 C34",
 =======
+=======
+>>>>>>> build/C21
     "C28": dict(
         category="proof",
         technique="Lean 4 proofs about the model of split_template_path / posixpath.join / choice and prefix dispatch "
